@@ -97,7 +97,8 @@ def verdicts(path):
     for c in calls:
         f = getattr(A, c["fn"], None) or getattr(C, c["fn"], None) or getattr(S, c["fn"])
         try:
-            f(*c["args"], **c.get("kw", {}))
+            args = [bytes.fromhex(a[7:]) if isinstance(a, str) and a.startswith("@bytes:") else a for a in c["args"]]
+            f(*args, **c.get("kw", {}))
             out.append("return")
         except Exception as e:  # noqa: BLE001
             out.append(type(e).__name__)
